@@ -173,6 +173,8 @@ impl<'a> Resolver<'a> {
             order: vec![],
             first: spec.first as u64,
             skip: spec.skip as u64,
+            first_var: None,
+            skip_var: None,
             paging: None,
             nullable: vec![],
         };
@@ -180,6 +182,15 @@ impl<'a> Resolver<'a> {
         if e.skip > 0 && e.first == 0 && !self.wild && !e.unique() {
             self.exclude("skip-without-first");
             e.first = 50;
+        }
+
+        if spec.limit_var {
+            if e.first > 0 {
+                e.first_var = Some(self.fresh("fq"));
+            }
+            if e.skip > 0 {
+                e.skip_var = Some(self.fresh("sq"));
+            }
         }
 
         // ---- scalar selections
@@ -315,7 +326,13 @@ impl<'a> Resolver<'a> {
             choices.push(None); // sys_room
             let nchoices = choices.len();
             for (i, s) in spec.subs.iter().enumerate() {
-                let c = pick(s.ent, nchoices);
+                let mut c = pick(s.ent, nchoices);
+                if self.wild && s.ent % 2 == 1 && !s.alias {
+                    // favour the shape "same reference name as the parent level" (self references)
+                    if let Some(k) = choices.iter().position(|r| matches!(r, Some(r) if r.name == e.out)) {
+                        c = k;
+                    }
+                }
                 let (target, link) = match choices[c] {
                     Some(r) => (
                         r.target,
